@@ -269,7 +269,7 @@ def gen_literal_body(rng):
 
 def stage1(run):
     rng = run.rng
-    n = 150000 if run.thorough else 20000
+    n = 150000 if run.thorough else 16000
     cases = [gen_mofstr_case(rng, i) for i in range(n)]
     # deterministic sweep: every maxline 40..120 x every position of one escape around the fold column
     sweep = []
@@ -1480,6 +1480,12 @@ def stage_typed_decls(run):
             continue
         if rng.random() < 0.3:
             inst.classname = recase(rng, inst.classname)
+        if rng.random() < 0.3:
+            # property names in another case than in the class: they come back in the class's spelling
+            import pywbem
+            inst = pywbem.CIMInstance(inst.classname, properties=[
+                pywbem.CIMProperty(recase(rng, p.name), p.value, type=p.type, reference_class=p.reference_class,
+                                   is_array=p.is_array, array_size=p.array_size) for p in inst.properties.values()])
         ml = rng.choice([40, 60, 80, 80, 100, 120, rng.randint(40, 120)])
         icases.append((decls, other, cls, inst, ml))
     ans = common.run_driver(PROP, [{'op': 'instmof', 'inst': inst_json(i), 'maxline': ml}
@@ -1764,7 +1770,7 @@ def is_known(sig):
 
 def stage3(run):
     rng = run.rng
-    n = 1500 if run.thorough else 160
+    n = 1500 if run.thorough else 140
     for _ in range(n):
         steps = gen_session(rng)
         if not steps:
@@ -1964,7 +1970,7 @@ def run_mock_session(run, ses):
 
 def stage4(run):
     rng = run.rng
-    n = 500 if run.thorough else 45
+    n = 200 if run.thorough else 36
     for _ in range(n):
         ses = gen_mock_session(rng)
         run_mock_session(run, ses)
